@@ -2,7 +2,7 @@
    and returns {"decoded": bool, "violations": [{"rule","idx","a","b","op"}], "stats": {...}}. *)
 From Coq Require Import List ZArith String.
 Import ListNotations.
-Require Import Naga.Base.Json Naga.Spv.Binary Naga.Spv.Validate Naga.Spv.ValidateMain Naga.Spv.SpvTies.
+Require Import Naga.Base.Json Naga.Spv.Binary Naga.Spv.Validate Naga.Spv.ValidateMain Naga.Spv.SpecNames.
 Require Extraction.
 Require Import ExtrOcamlBasic.
 Open Scope string_scope.
